@@ -403,6 +403,14 @@ impl World {
     }
 
     fn apply(&mut self, op: Op) -> Result<(), String> {
+        let r = self.apply_inner(op);
+        if self.c07 && r.is_ok() {
+            self.c07_oracle(op);
+        }
+        r
+    }
+
+    fn apply_inner(&mut self, op: Op) -> Result<(), String> {
         let c = nodes::crypto(SeededRng::new(777));
         let store_failures_before = self.kv.0.borrow().failures;
         let was_armed = self.model.armed_by;
@@ -441,7 +449,7 @@ impl World {
                             // no key was ever requested: a NOC for a key of the harness's own
                             let kp = certw::keypair(&c).map_err(|e| format!("{:?}", e.code()))?;
                             self.last_csr_key = Some(kp.public.clone());
-                            return self.apply(op);
+                            return self.apply_inner(op);
                         };
                         let (rkp, rspec, _) = &self.roots[self.next_root % 3];
                         let leaf = KeyPair { secret: rkp.secret.clone(), public: pk.clone(), key_id: certw::key_id(&c, &pk).map_err(|e| format!("{:?}", e.code()))? };
@@ -724,6 +732,48 @@ impl World {
     }
 }
 
+impl World {
+    /// C07: nothing bound to a fabric outlives that fabric.
+    fn c07_oracle(&mut self, op: Op) {
+        if self.dev.as_ref().map(|d| d.boot_error.borrow().is_some()).unwrap_or(true) {
+            return;
+        }
+        let fabrics = memory_config(self.md());
+        let sessions: Vec<(u16, String, u8, bool)> = self.md().with_state(|s| {
+            s.verif_sessions()
+                .iter()
+                .map(|x| {
+                    let (kind, fab) = match x.get_session_mode() {
+                        SessionMode::Case { fab_idx, .. } => ("case", fab_idx.get()),
+                        SessionMode::Pase { fab_idx } => ("pase", *fab_idx),
+                        _ => ("other", 0),
+                    };
+                    (x.get_local_sess_id(), kind.to_string(), fab, x.verif_flags().1)
+                })
+                .collect()
+        });
+        for (ld, kind, fab, expired) in sessions {
+            if fab == 0 || expired || kind == "other" {
+                continue;
+            }
+            let current = fabrics.iter().find(|f| f.idx == fab);
+            match (current, self.incarnation.get(&ld)) {
+                (None, _) => self.violations.push((format!("C07:{}-session-outlives-its-fabric:after-{}", kind, op_class(op)), format!("after {:?} the device still holds a usable {} session (local id {}) bound to fabric index {}, which no longer exists", op, kind, ld, fab))),
+                (Some(f), Some((_, root, fabric_id))) if f.root != *root || f.fabric_id != *fabric_id => {
+                    self.violations.push((format!("C07:{}-session-of-a-removed-fabric-reaches-its-successor:after-{}", kind, op_class(op)), format!("after {:?} the session with local id {} established for fabric (id {:#x}) is bound to index {}, which now holds another fabric (id {:#x})", op, ld, fabric_id, fab, f.fabric_id)))
+                }
+                _ => {}
+            }
+        }
+        // sessions of other fabrics are unaffected by a removal
+        if let Op::RemoveFabricC(f, g) = op {
+            if f != g && self.case_sessions.contains(&f) && fabrics.iter().any(|x| x.idx == f) && !self.case_alive(f) {
+                self.violations.push(("C07:removal-took-down-another-fabric's-session".into(), format!("after {:?} the session of fabric {} is gone", op, f)));
+            }
+        }
+    }
+}
+
 fn op_class(op: Op) -> String {
     let s = format!("{:?}", op);
     s.split('(').next().unwrap_or("").to_string()
@@ -743,7 +793,13 @@ fn describe_diff(a: &Config, b: &Config) -> String {
 
 /// (state key, violations, enabled ops) after executing a history from a fresh world
 fn execute(history: &[Op]) -> Result<(u64, Vec<(String, String)>, Vec<Op>), String> {
+    execute_mode(history, false)
+}
+
+/// `c07`: judge C07 (and report only its violations) instead of C08
+pub fn execute_mode(history: &[Op], c07: bool) -> Result<(u64, Vec<(String, String)>, Vec<Op>), String> {
     let mut w = World::new()?;
+    w.c07 = c07;
     for op in history {
         if !w.enabled().contains(op) {
             return Err(format!("history step {:?} is not enabled", op));
@@ -751,7 +807,8 @@ fn execute(history: &[Op]) -> Result<(u64, Vec<(String, String)>, Vec<Op>), Stri
         w.apply(*op)?;
     }
     if w.dev.as_ref().map(|d| d.boot_error.borrow().is_some()).unwrap_or(true) {
-        return Ok((digest(&("dead", history.len())), w.violations, vec![]));
+        let prefix = if c07 { "C07:" } else { "C08:" };
+        return Ok((digest(&("dead", history.len())), w.violations.into_iter().filter(|(s, _)| s.starts_with(prefix) || s.contains("device-does-not-start")).collect(), vec![]));
     }
     let fs = w.md().with_state(|s| s.verif_failsafe().verif_state());
     let sessions: Vec<(u16, String, bool)> = w.md().with_state(|s| {
@@ -761,22 +818,24 @@ fn execute(history: &[Op]) -> Result<(u64, Vec<(String, String)>, Vec<Op>), Stri
     });
     let key = digest(&(w.config(), w.committed.clone(), w.model.clone(), fs.0.map(|x| (x.0, x.1)), fs.2, sessions, w.last_csr_key.is_some(), w.next_root, w.kv.0.borrow().fail_attempt.is_some(), w.md().comm_window_state().is_open(), w.memory_dirty));
     let en = w.enabled();
-    Ok((key, w.violations, en))
+    let prefix = if c07 { "C07:" } else { "C08:" };
+    let v = w.violations.into_iter().filter(|(s, _)| s.starts_with(prefix)).collect();
+    Ok((key, v, en))
 }
 
-struct Bfs {
-    states: usize,
-    transitions: u64,
-    violations: Vec<(Vec<Op>, String, String)>,
-    capped: bool,
+pub struct Bfs {
+    pub states: usize,
+    pub transitions: u64,
+    pub violations: Vec<(Vec<Op>, String, String)>,
+    pub capped: bool,
 }
 
 /// level-synchronous BFS over histories; every history is executed from scratch on real objects
-fn bfs(prefix: Vec<Op>, depth: usize, cap: usize) -> Result<Bfs, String> {
+pub fn bfs(prefix: Vec<Op>, depth: usize, cap: usize, c07: bool) -> Result<Bfs, String> {
     use rayon::prelude::*;
-    let run = |h: &Vec<Op>| match common::catch(|| execute(h)) {
+    let run = |h: &Vec<Op>| match common::catch(|| execute_mode(h, c07)) {
         Ok(r) => r,
-        Err(p) => Ok((digest(&("panic", h.clone())), vec![(format!("C08:panic:{}", p.class()), p.to_string())], vec![])),
+        Err(p) => Ok((digest(&("panic", h.clone())), vec![(format!("{}:panic:{}", if c07 { "C07" } else { "C08" }, p.class()), p.to_string())], vec![])),
     };
     let (k0, v0, en0) = run(&prefix)?;
     let mut out = Bfs { states: 1, transitions: 0, violations: v0.into_iter().map(|(s, w)| (prefix.clone(), s, w)).collect(), capped: false };
@@ -819,11 +878,11 @@ fn bfs(prefix: Vec<Op>, depth: usize, cap: usize) -> Result<Bfs, String> {
     Ok(out)
 }
 
-fn honest_prefix() -> Vec<Op> {
+pub fn honest_prefix() -> Vec<Op> {
     vec![Op::ArmP, Op::CsrP, Op::RootP, Op::AddNocP, Op::CompleteC(1)]
 }
 
-fn parse_op(s: &str) -> Option<Op> {
+pub fn parse_op(s: &str) -> Option<Op> {
     let all = [Op::ArmP, Op::Arm0P, Op::CsrP, Op::RootP, Op::AddNocP, Op::CompleteP, Op::Tick, Op::Restart, Op::FailNextStore, Op::FailSecondStore];
     for o in all {
         if format!("{:?}", o) == s {
@@ -871,7 +930,7 @@ pub fn run_check(ctx: &Ctx) -> i32 {
     let mut total_transitions = 0u64;
     let mut per_root = Vec::new();
     for (name, prefix, d) in [("factory-fresh", vec![], depth), ("one-fabric-commissioned", honest_prefix(), depth)] {
-        let r = match bfs(prefix.clone(), d, if ctx.tier == Tier::Quick { 6_000 } else { 400_000 }) {
+        let r = match bfs(prefix.clone(), d, if ctx.tier == Tier::Quick { 6_000 } else { 400_000 }, false) {
             Ok(r) => r,
             Err(e) => {
                 eprintln!("MACHINERY: {}", e);
